@@ -124,6 +124,28 @@ func checkEvalTotal(c evalCase) (msg string, class string) {
 		ctx, cancel = context.WithTimeout(ctx, time.Hour)
 		defer cancel()
 	}
+	if c.Must == "error" {
+		// the tree may have served another record before, one in which the same names were all callable (and
+		// the members of maps too): what is misuse over this record is misuse all the same
+		anyFn := func(args ...interface{}) (interface{}, error) { return "called", nil }
+		callable := map[string]interface{}{}
+		for k, v := range data {
+			callable[k] = anyFn
+			if m, isMap := v.(map[string]interface{}); isMap {
+				mm := map[string]interface{}{}
+				for mk := range m {
+					mm[mk] = anyFn
+				}
+				callable[k] = mm
+			}
+		}
+		for _, k := range []string{"undefinedName", "nosuch", "zz", "x", "f"} {
+			callable[k] = anyFn
+		}
+		r0 := formula.NewRunner()
+		r0.SetThis(callable)
+		obs.Eval(r0, ctx, p.Src.Expression)
+	}
 	out := obs.Eval(r, ctx, p.Src.Expression)
 	if out.Panic == nil {
 		// the runner is the caller's to keep: the same evaluation once more on the runner that has just
